@@ -38,10 +38,12 @@ def part_structure(L, log):
             t = b.term or ""
             if re.search(r"= ConnectionInner::<[^>]*>::send_control_stream_headers\(", t):
                 call_sites.append(name)
-    ok_ctor = len(ctor_sites) == 1 and ctor_sites[0].endswith("send_control_stream_headers::{closure#0}")
+    # exactly one construction site in the whole crate; WHERE it is does not matter (part H follows the calls from
+    # send_control_stream_headers into whatever helper builds it)
+    ok_ctor = len(ctor_sites) == 1
     if not ok_ctor:
         viols.append({"key": "c13.setup.settings_built_for_sending_elsewhere",
-                      "what": "a SETTINGS to be sent (UniStreamHeader::Control) is constructed in a place other than exactly once in send_control_stream_headers",
+                      "what": "a SETTINGS to be sent (UniStreamHeader::Control) is not constructed at exactly one place in the crate (a second SETTINGS could be written)",
                       "model": {"sites": ctor_sites}})
     bad_frames = frame_sites
     if bad_frames:
